@@ -122,8 +122,37 @@ def body():
                             chk.violation("fmm_vs_dense:%s:%s" % (name, cname.replace(" ", "_")), "%s: fmm and dense potentials differ by %.3g" % (label, e_), {"case": label})
                     except Exception as exc:
                         chk.violation("fmm_vs_dense:%s:exception" % name, "%s: %s: %s" % (label, type(exc).__name__, str(exc)[:160]), {"case": label})
-        # ---- cache keys: change the global order between two FMM operators on the same grid
+        # ---- the library's own replacement of the backend (fmm.dense_evaluation): same comparison, far field by helpers.dense_interaction_evaluator
         par = api.GLOBAL_PARAMETERS
+        par.fmm.dense_evaluation = True
+        try:
+            api.clear_fmm_cache()
+            sd, st = spaces(gA, "sup"), spaces(gA, "seg")
+            for name, fac, kd, kt in fams[::3] if quick else fams:
+                label = "%s (%s -> %s), dense_evaluation" % (name, kd, kt)
+                chk.count(label, True)
+                try:
+                    x = rng.rand(sd[kd].global_dof_count) + 1j * rng.rand(sd[kd].global_dof_count)
+                    a, dd = fac(sd[kd], st[kt], "fmm").weak_form() @ x, fac(sd[kd], st[kt], "dense").weak_form() @ x
+                    e_ = np.abs(a - dd).max() / max(1e-12, np.abs(dd).max())
+                    if e_ > 1e-10:
+                        chk.violation("dense_evaluation:%s" % name, "%s: fmm (library's direct far-field evaluator) and dense mat-vec differ by %.3g" % (label, e_), {"case": label})
+                except Exception as exc:
+                    chk.violation("dense_evaluation:%s:exception" % name, "%s: %s: %s" % (label, type(exc).__name__, str(exc)[:160]), {"case": label})
+            for name, fac, ks in pots[::3] if quick else pots:
+                label = "%s (%s), dense_evaluation" % (name, ks)
+                chk.count(label, True)
+                try:
+                    f = api.GridFunction(sd[ks], coefficients=rng.rand(sd[ks].global_dof_count) + 1j * rng.rand(sd[ks].global_dof_count))
+                    a, dd = fac(sd[ks], "fmm").evaluate(f), fac(sd[ks], "dense").evaluate(f)
+                    e_ = np.abs(a - dd).max() / max(1e-12, np.abs(dd).max())
+                    if e_ > 1e-10:
+                        chk.violation("dense_evaluation:%s" % name, "%s: fmm and dense potentials differ by %.3g" % (label, e_), {"case": label})
+                except Exception as exc:
+                    chk.violation("dense_evaluation:%s:exception" % name, "%s: %s: %s" % (label, type(exc).__name__, str(exc)[:160]), {"case": label})
+        finally:
+            par.fmm.dense_evaluation = False
+        # ---- cache keys: change the global order between two FMM operators on the same grid
         sp = spaces(gA, "all")
         for hist in ("order", "order+clear"):
             api.clear_fmm_cache()
